@@ -1695,6 +1695,8 @@ class WassersteinVectorizer(BaseEstimator, TransformerMixin):
                 else:
                     self.reference_distribution_ = reference_distribution
                     self.reference_vectors_ = reference_vectors
+                    lot_dimension = self.reference_vectors_.size
+                    block_size = max(1, memory_size // (lot_dimension * 8))
 
                 if self.method == "LOT_exact":
                     self.embedding_, self.components_ = lot_vectors_sparse(
